@@ -12,6 +12,9 @@
 // within / beyond / far beyond lfs.transfer.maxretries, connection resets, cut
 // bodies, a batch answer that reports the object missing once. Commands that
 // exit 0 are judged as always; commands that fail under faults are counted.
+// A sample of the scenarios ends with a rare command shape (shapes.go):
+// fetch --all / --recent / --refetch / --dry-run / --json / several refs, and
+// checkout --to --base|--ours|--theirs during a merge conflict.
 //
 // Oracle (no git-lfs code): reference model (ls-tree / cat-file with filters
 // disabled + ptrspec) for the pointers of the checked-out commit, Git's own
@@ -31,6 +34,7 @@ import (
 	"strings"
 	"sync"
 	"sync/atomic"
+	"time"
 
 	"verif/harness/evid"
 	"verif/harness/fakelfs"
@@ -72,9 +76,17 @@ type source struct {
 	paths []string // every path of every ref
 	// fault scripts of the scenarios that run with a misbehaving server, keyed by the scenario's server repository
 	scripts sync.Map
+	// dated: commit dates are drawn from datedAges relative to the start of the run (recent-window shapes)
+	dated bool
+	// per-commit reference data (shapes.go)
+	cmu     sync.Mutex
+	cmodel  *histgen.Model
+	commits map[string]*commitData
 }
 
 var tmpSeq int64
+
+var startTime = time.Now()
 
 // trackedAt evaluates Git's own attribute machinery on rev's tree: which of paths have filter=lfs.
 func trackedAt(env *sbx.Env, dir, rev string, paths []string) map[string]bool {
@@ -124,8 +136,18 @@ func genSource(run *evid.Run, i int) *source {
 	env := sbx.New()
 	srv := fakelfs.New()
 	src := &source{idx: i, env: env, srv: srv}
-	src.g = histgen.New(env, "work", run.Seed*7919+int64(i), histgen.Options{Commits: 8 + r.Intn(10), Merges: true, Tags: true, TrackToggles: true, Symlinks: true, ExecBits: true, EmptyFiles: true})
+	hopts := histgen.Options{Commits: 8 + r.Intn(10), Merges: true, Tags: true, TrackToggles: true, Symlinks: true, ExecBits: true, EmptyFiles: true}
+	if isDated(run.Seed, i) {
+		src.dated = true
+		hopts.Dates, hopts.Now = datedAges, startTime
+		// longer histories that rewrite paths more often: previous versions inside the commits window
+		hopts.Commits += 6
+		hopts.TwoLFSPerCommit = true
+		run.Count("source_repos_with_recent_commit_dates", 1)
+	}
+	src.g = histgen.New(env, "work", run.Seed*7919+int64(i), hopts)
 	g := src.g
+	src.extend(rand.New(rand.NewSource(run.Seed*5000011 + int64(i))))
 	src.bare = env.InitBare("origin.git")
 	env.MustGit(g.Dir, "remote", "add", "origin", src.bare)
 	env.MustGit(g.Dir, "config", "lfs.url", srv.Endpoint("origin"))
@@ -159,6 +181,9 @@ func genSource(run *evid.Run, i int) *source {
 		default:
 			continue
 		}
+		if strings.HasPrefix(ri.Name, tagOnlyName) {
+			continue // never cloned or checked out by name: it only has to be found by fetch --all
+		}
 		ri.Sha = strings.TrimSpace(env.MustPlainGit(g.Dir, "rev-parse", name+"^{commit}"))
 		ri.Ptrs = ptrsAt(env, m, ri.Sha)
 		for _, e := range histgen.LsTree(env, g.Dir, ri.Sha) {
@@ -189,6 +214,25 @@ type opPlan struct {
 	SkipEnv bool   // git-checkout under GIT_LFS_SKIP_SMUDGE=1
 	Mutate  bool
 	Subdir  bool // run with cwd = a sub-directory of the working tree (no patterns on the command line)
+	// rare shapes, run as the last operation of a scenario (shapes.go)
+	Shape        string `json:",omitempty"`
+	All          bool   `json:",omitempty"`
+	Recent       bool   `json:",omitempty"`
+	RecentAlways bool   `json:",omitempty"` // lfs.fetchrecentalways=true instead of --recent
+	Refetch      bool   `json:",omitempty"`
+	DryRun       bool   `json:",omitempty"`
+	JSON         bool   `json:",omitempty"`
+	RefsDays     int    // lfs.fetchrecentrefsdays (-1 = unset: 7)
+	CommitsDays  int    // lfs.fetchrecentcommitsdays (-1 = unset: 0)
+	RemoteRefs   string `json:",omitempty"` // lfs.fetchrecentremoterefs ("" = unset: true)
+	// lfs-checkout-to: git lfs checkout --to <file> --<stage> <path> during a merge conflict
+	ToInside  bool     `json:",omitempty"` // --to path inside the working tree
+	BaseLocal bool     `json:",omitempty"` // make sure the base stage's object is in the local store
+	NewFile   bool     `json:",omitempty"` // conflict on a new file instead of a path of the history
+	Stages    []string `json:",omitempty"`
+	// refetch shapes in otherwise fault-free scenarios: the server fails for good for one or two objects
+	FaultTail bool   `json:",omitempty"`
+	FaultKind string `json:",omitempty"`
 }
 
 type plan struct {
@@ -439,6 +483,15 @@ func optClass(o opPlan) string {
 	if len(o.Refs) > 0 {
 		s += fmt.Sprintf("-refs%d", len(o.Refs))
 	}
+	if o.Shape != "" {
+		s += "-shape:" + o.Shape
+		if o.Recent || o.RecentAlways {
+			s += fmt.Sprintf("[refs%dd,commits%dd,remoterefs=%s]", o.RefsDays, o.CommitsDays, o.RemoteRefs)
+		}
+		if o.Kind == "lfs-checkout-to" {
+			s += fmt.Sprintf("[inside=%v,newfile=%v,%s]", o.ToInside, o.NewFile, strings.Join(o.Stages, ">"))
+		}
+	}
 	if len(o.Paths) > 0 {
 		s += "-paths"
 	}
@@ -474,7 +527,7 @@ func (p plan) class() string {
 func main() {
 	run := evid.New("C04", "exploration")
 	defer sbx.RemoveBase()
-	run.Rule = "per source repository (histgen: branches, merges, orphan branches, tags, add/modify/delete/rename/duplicate, files moving in and out of LFS tracking, nested .gitattributes, exec bits, empty files, symlinks; pushed through the pre-push hook to a bare repository + fake LFS server) 8 consumer scenario templates: {smudging clone, skip-smudge clone + fetch + lfs checkout, skip clone + edits + pull, configured include/exclude overridden by -I/-X, alternates reference store, pre-seeded local objects, clone --no-checkout + seed + checkout + ref switch, free mix} x random {branch|tag, lfs.url via -c/--config/HOME, filter-process|one-shot smudge, lfs.fetchinclude/exclude via HOME/-c/--config, 11 pattern forms, -I/-X given/empty/absent, fetch refs, lfs checkout path arguments, GIT_LFS_SKIP_SMUDGE on git checkout, 9 working-tree mutation kinds before pull / lfs checkout} x transient server faults in one scenario out of three: for one or two victim objects that the step reached first (clone, first checkout, git checkout, lfs fetch, lfs pull) is about to download, the storage GET is answered {503 k times with k <= lfs.transfer.maxretries, 503 maxretries+1 times, 503 for ever, connection reset once or twice, body cut short once or twice} or the batch API reports the object missing once; lfs.transfer.maxretries in {1,2,8} delivered via HOME/-c/--config; later steps (incl. lfs checkout) run with what is left of the script and with the objects a failed step left behind. A command that exits 0 is judged exactly as without faults; a command that exits non-zero while faults were injected is counted, not judged (except never-clobber / fetch-leaves-worktree-alone, which hold for failures too). Class = (clone mode, ref kind, filter driver, store, configured filter shape, sequence of operations with their option shapes, fault kind + maxretries + step at which it was armed)."
+	run.Rule = "per source repository (histgen: branches, merges, orphan branches, tags, add/modify/delete/rename/duplicate, files moving in and out of LFS tracking, nested .gitattributes, exec bits, empty files, symlinks; pushed through the pre-push hook to a bare repository + fake LFS server) 8 consumer scenario templates: {smudging clone, skip-smudge clone + fetch + lfs checkout, skip clone + edits + pull, configured include/exclude overridden by -I/-X, alternates reference store, pre-seeded local objects, clone --no-checkout + seed + checkout + ref switch, free mix} x random {branch|tag, lfs.url via -c/--config/HOME, filter-process|one-shot smudge, lfs.fetchinclude/exclude via HOME/-c/--config, 11 pattern forms, -I/-X given/empty/absent, fetch refs, lfs checkout path arguments, GIT_LFS_SKIP_SMUDGE on git checkout, 9 working-tree mutation kinds before pull / lfs checkout} x transient server faults in one scenario out of three: for one or two victim objects that the step reached first (clone, first checkout, git checkout, lfs fetch, lfs pull) is about to download, the storage GET is answered {503 k times with k <= lfs.transfer.maxretries, 503 maxretries+1 times, 503 for ever, connection reset once or twice, body cut short once or twice} or the batch API reports the object missing once; lfs.transfer.maxretries in {1,2,8} delivered via HOME/-c/--config; later steps (incl. lfs checkout) run with what is left of the script and with the objects a failed step left behind. A command that exits 0 is judged exactly as without faults; a command that exits non-zero while faults were injected is counted, not judged (except never-clobber / fetch-leaves-worktree-alone, which hold for failures too). Rare command shapes run as the LAST operation of a sample of the scenarios (every second scenario, rotating by seed; every scenario of the source repositories with recent commit dates = one in four, commit ages from {0.3,1.5,2.5,5,9,12,30} days plus three 7-9 h old commits on main that rewrite the same two paths; every source also has a commit reachable from a tag only): fetch --all [origin [refs|sha]] (also --json / --dry-run), fetch --recent and lfs.fetchrecentalways with lfs.fetchrecentrefsdays / lfs.fetchrecentcommitsdays in {unset,0,1,3,7} and lfs.fetchrecentremoterefs in {unset,true,false} (+ -I/-X, refs, --json), fetch origin with three arguments incl. a raw commit id, fetch --refetch (in two of three cases with a server that fails for good for 1-2 of the objects), fetch --dry-run, fetch --json, and `git lfs checkout --to <file inside|outside the work tree> --base|--ours|--theirs <path>` in every stage order during a real modify/modify merge conflict on an LFS path of the history or a new file, followed by the usage errors (--to without a stage, two stages). Class = (clone mode, ref kind, filter driver, store, configured filter shape, sequence of operations with their option shapes incl. the tail shape and its windows, fault kind + maxretries + step at which it was armed)."
 	run.Assumptions = []string{
 		"selection by include/exclude follows gitignore(5) as documented in git-lfs-fetch(1); the driver's matcher is restricted to the generated pattern forms and cross-checked against git check-ignore",
 		"-I / -X each override only their own configuration key (documented: 'override the respective configuration settings')",
@@ -484,6 +537,10 @@ func main() {
 		"git checkout <ref> only rewrites paths whose blob differs between the two commits; untouched paths keep their state",
 		"git 2.39.5: git lfs pull / checkout scan the tree of HEAD (index == HEAD in every scenario)",
 		"the driver runs as root: read-only files are still writable for git-lfs",
+		"fetch --all: demanded = every LFS-tracked canonical pointer in the tree of every commit reachable from all refs (git rev-list --all in the clone) or from the given arguments; configured include/exclude are ignored as documented",
+		"fetch --recent / lfs.fetchrecentalways: only a lower bound is judged (shapes.go, recentDemands): tip trees of local branches and, unless lfs.fetchrecentremoterefs=false, of origin's remote-tracking branches whose tip is younger than the refs window minus half a day; previous versions = pointers at tracked, selected paths replaced by another pointer or deleted by a non-merge commit reachable from a fetched or recent tip through commits inside (tip date - commits window + 12 h), whose object is nowhere in that commit's tree. Extra objects are never judged. Commit dates are relative to the start of the run; the guard bands make the verdict independent of how long the run takes",
+		"fetch --dry-run and the form of the --json output are outside the property: counted only (dry_run_objects_gained, fetch_json_*). For every tail fetch and any exit status: working tree untouched and every object that was hash-valid in lfs/objects before is hash-valid afterwards",
+		"checkout --to: git-lfs-checkout(1) 'Does not download any content': a stage whose object is not in the local store may fail (counted); with the object local the command must exit 0 and the --to file must hold exactly that stage's bytes (stages read with git ls-files -u + ptrspec); no other working-tree file, the conflicted file included, may change; the usage errors must not create the --to file",
 		"faulty scenarios: back-off sleeps of the transfer queue are scaled by 0.02 through the verif-tagged hook (VERIF_RETRY_SCALE) and the verif-tagged event trace (VERIF_TRACE) is read for counters only (queue retries, delayed-smudge fallbacks); neither takes part in a verdict",
 		"faulty scenarios: after a git clone / git checkout / git reset that exits non-zero the scenario ends (index and HEAD may disagree); after a failed lfs fetch / pull it goes on, and every later expectation is computed from the state observed right before the command (working-tree snapshot, hash-valid local objects)",
 	}
@@ -524,7 +581,7 @@ func main() {
 					defer w2.Done()
 					sem <- struct{}{}
 					defer func() { <-sem }()
-					runScenario(run, src, k)
+					runScenario(run, src, k, nscen)
 				}(k)
 			}
 			w2.Wait()
